@@ -689,4 +689,97 @@ theorem boundsListOfString_ok_has_bound (s : List Char) (l : UserBoundsList)
           simp only [Res.ok.injEq] at h
           subst h
           exact markLast_some_bounds l0 l' hm
+/-! ## 4. the whole argument: scanner with look-ahead = lexer + token parser -/
+
+theorem isWhitespace_eq (c : Char) : isWhitespace c = isWs c := by
+  unfold isWhitespace isWs
+  generalize c.toNat = n
+  rw [Bool.eq_iff_iff]
+  simp only [List.contains_cons, List.contains_nil, Bool.or_eq_true, Bool.and_eq_true,
+    decide_eq_true_eq, beq_iff_eq, Bool.or_false]
+  omega
+
+theorem all_isWhitespace_eq (s : List Char) : s.all isWhitespace = s.all isWs := by
+  congr 1; funext c; exact isWhitespace_eq c
+
+theorem hasBrace_eq (s : List Char) :
+    (s.any fun c => decide (c = '{' ∨ c = '}')) = hasBrace s := by
+  unfold hasBrace
+  rw [Bool.eq_iff_iff]
+  simp only [List.any_eq_true, decide_eq_true_eq, Bool.or_eq_true, List.contains_eq_mem]
+  constructor
+  · rintro ⟨y, hy, (h | h)⟩
+    · subst h; exact Or.inl hy
+    · subst h; exact Or.inr hy
+  · rintro (h | h)
+    · exact ⟨_, h, Or.inl rfl⟩
+    · exact ⟨_, h, Or.inr rfl⟩
+
+theorem boundsOnly_isEmpty (l : List BoF) : (boundsOnly l).isEmpty = !hasBound l := by
+  induction l with
+  | nil => rfl
+  | cons x t ih => cases x <;> simp [boundsOnly, hasBound, ih]
+
+theorem markLast_eq (l : List BoF) :
+    markLast l = if hasBound l then Option.some (flagLast l) else Option.none := by
+  induction l with
+  | nil => rfl
+  | cons x t ih =>
+    cases x with
+    | filler f =>
+      simp only [markLast, hasBound, flagLast, ih]
+      by_cases h : hasBound t = true <;> simp [h]
+    | bound b =>
+      simp only [markLast, hasBound, flagLast, ih, if_true]
+      by_cases h : hasBound t = true <;> simp [h]
+
+theorem splitOnChar_ne_nil (c : Char) (s : List Char) : splitOnChar c s ≠ [] := by
+  induction s with
+  | nil => simp [splitOnChar]
+  | cons x t ih =>
+    by_cases hx : x = c
+    · simp [splitOnChar, hx]
+    · simp only [splitOnChar, if_neg hx]
+      cases splitOnChar c t <;> simp
+
+theorem piecesFrom_eq (sep : Char) (cur s : List Char) :
+    piecesFrom sep cur s =
+      (cur ++ (splitOnChar sep s).headD []) :: (splitOnChar sep s).tail := by
+  induction s generalizing cur with
+  | nil => simp [piecesFrom, splitOnChar]
+  | cons x t ih =>
+    have hne := splitOnChar_ne_nil sep t
+    by_cases hx : x = sep
+    · simp only [piecesFrom, splitOnChar, if_pos hx, ih, List.nil_append, List.headD_cons,
+        List.append_nil, List.tail_cons]
+      cases hs : splitOnChar sep t with
+      | nil => exact absurd hs hne
+      | cons h r => rfl
+    · simp only [piecesFrom, splitOnChar, if_neg hx, ih]
+      cases hs : splitOnChar sep t with
+      | nil => exact absurd hs hne
+      | cons h r => simp
+
+theorem pieces_eq (sep : Char) (s : List Char) : pieces sep s = splitOnChar sep s := by
+  unfold pieces
+  rw [piecesFrom_eq]
+  have hne := splitOnChar_ne_nil sep s
+  cases hs : splitOnChar sep s with
+  | nil => exact absurd hs hne
+  | cons h r => rfl
+
+theorem parseAll_eq (l : List (List Char)) : parseAll l = allBounds l := by
+  induction l with
+  | nil => rfl
+  | cons s t ih =>
+    simp only [parseAll, allBounds, parseUserBounds_eq_spec, ih]
+    cases specBound s with
+    | none => rfl
+    | some b => cases allBounds t <;> rfl
+
+theorem specCommaList_eq (s : List Char) :
+    specCommaList s = (parseAll (splitOnChar ',' s)).map (·.map BoF.bound) := by
+  unfold specCommaList
+  rw [pieces_eq, parseAll_eq]
+
 end Tuc
